@@ -663,8 +663,137 @@ def prove_evaluate(src_root, ex: Explorer):
     ex.run(cycle, 'cycle')
 
 
+# ---------------------------------------------------------------------------
+# configuration changes reach the management cycle
+
+def prove_changes(src_root, ex: Explorer):
+    def update(ctx: Ctx):
+        """update_shared_directory: a given share mode and a given user list - including the EMPTY list - replace the old values; None leaves
+        them; the change event is emitted (it requests the re-evaluation of the uploads)"""
+        it = mk(src_root, ctx)
+        mode_case = ctx.choose(2, 'share_mode-given') == 1
+        users_case = ['none', 'empty', 'some'][ctx.choose(3, 'users')]
+        by_path = ctx.choose(2, 'by-path') == 1
+        old_mode, new_mode = enum(it, SMODEL, 'DirectoryShareMode', 'USERS'), enum(it, SMODEL, 'DirectoryShareMode', 'EVERYONE')
+        old_users = ['carol']
+        d = new(it, SMODEL, 'SharedDirectory', share_mode=old_mode, users=old_users, absolute_path='/m', directory='/m', alias='mmmmm')
+        events = []
+        bus = Stub('bus', emit_sync=Recorder('emit_sync', fn=lambda it2, a, k: events.append(a[0])))
+        it.hooks[f'{MGR}:SharesManager.get_shared_directory'] = lambda it2, f, a, k: d
+        mgr = new(it, MGR, 'SharesManager', _event_bus=bus)
+        new_users = {'none': None, 'empty': [], 'some': ['dave']}[users_case]
+        r = it.call(it.getattr(mgr, 'update_shared_directory'), ['/m' if by_path else d], {'share_mode': new_mode if mode_case else None, 'users': new_users})
+        ctx.prove('C08.update.share-mode', d.attrs['share_mode'] is (new_mode if mode_case else old_mode), 'a given share mode must replace the old one, None must leave it')
+        want_users = old_users if new_users is None else new_users
+        ctx.prove(f'C08.update.users[{users_case}]', d.attrs['users'] is want_users or d.attrs['users'] == want_users,
+                  'a given user list must replace the old one - also the EMPTY list, which removes every named user')
+        ctx.prove('C08.update.event', r is d and len(events) == 1 and isinstance(events[0], Obj) and events[0].cls.name == 'SharedDirectoryChangeEvent'
+                  and any(v is d for v in events[0].attrs.values()), 'the change must be announced (the transfer manager re-evaluates the uploads on this event)')
+    ex.run(update, 'update-directory')
+
+    def wiring(ctx: Ctx):
+        """the three change events request a SHARES_CHANGE management cycle"""
+        it = mk(src_root, ctx)
+        flags = []
+        it.hooks[f'{TM}:TransferManager.request_management_cycle'] = lambda it2, f, a, k: flags.append(a[1])
+        mgr = new(it, TM, 'TransferManager')
+        it.call(it.getattr(mgr, '_request_shares_cycle'), [Stub('event')], {})
+        ctx.prove('C08.changes.request-shares-cycle', len(flags) == 1 and isinstance(flags[0], EnumMember) and flags[0].name == 'SHARES_CHANGE')
+        regs = []
+        bus = Stub('bus', register=Recorder('register', fn=lambda it2, a, k: regs.append((a[0], a[1]))))
+        mgr2 = new(it, TM, 'TransferManager', _event_bus=bus)
+        it.call(it.getattr(mgr2, 'register_listeners'), [], {})
+        names = {getattr(e, 'name', None): getattr(getattr(h, 'func', h), 'node', None) for e, h in regs}
+        ok = all(n in names and names[n] is not None and names[n].name == '_request_shares_cycle'
+                 for n in ('BlockListChangedEvent', 'FriendListChangedEvent', 'SharedDirectoryChangeEvent'))
+        ctx.prove('C08.changes.events-wired', ok, 'block list, friend list and shared directory changes must all request the shares cycle')
+    ex.run(wiring, 'change-wiring')
+
+    def request(ctx: Ctx):
+        """request_management_cycle(flag): the flag is ADDED to the pending flags and the queue holds a wake-up token afterwards"""
+        it = mk(src_root, ctx)
+        RF = cls(it, TM, '_RequestFlag')
+        shares, transfer = [m for m in RF.enum_members if m.name == 'SHARES_CHANGE'][0], [m for m in RF.enum_members if m.name == 'TRANSFER_CHANGE'][0]
+        pending = [it.enum_from_value(RF, 0), shares, transfer][ctx.choose(3, 'pending')]
+        full = ctx.choose(2, 'queue-full') == 1
+        puts = []
+
+        def put_nowait(it2, a, k):
+            puts.append(a)
+            if full:
+                it2.throw(it2.natives['asyncio.QueueFull'] if 'asyncio.QueueFull' in it2.natives else cls_builtin(it2, 'QueueFull'), 'full')
+        q = Stub('queue', put_nowait=Recorder('put_nowait', fn=put_nowait))
+        mgr = new(it, TM, 'TransferManager', _management_flags=pending, _management_queue=q)
+        it.call(it.getattr(mgr, 'request_management_cycle'), [shares], {})
+        after = mgr.attrs['_management_flags']
+        ctx.prove('C08.cycle.request-adds-flag', unbox_flag(after) == (unbox_flag(pending) | shares.value) and len(puts) == 1,
+                  'a request must be added to the pending ones (and a wake-up token be offered to the queue)')
+    ex.run(request, 'request-cycle')
+
+    def job(ctx: Ctx):
+        """_management_job, a change requested at ANY suspension point of the job is not lost: either manage_shares_changed starts after
+        the request in this very job, or the SHARES_CHANGE flag is still pending when the job ends (the request also left a wake-up token)"""
+        it = mk(src_root, ctx)
+        RF = cls(it, TM, '_RequestFlag')
+        shares = [m for m in RF.enum_members if m.name == 'SHARES_CHANGE'][0]
+        transfer = [m for m in RF.enum_members if m.name == 'TRANSFER_CHANGE'][0]
+        pending0 = [shares, transfer][ctx.choose(2, 'pending')]
+        inject_at = ['queue.get', 'manage_shares_changed', 'manage_user_tracking', 'never'][ctx.choose(4, 'change-arrives-during')]
+        log = []
+        q = Stub('queue', get=Recorder('queue.get', fn=lambda it2, a, k: log.append('get-returned'), is_async=True),
+                 put_nowait=Recorder('put_nowait', fn=lambda it2, a, k: log.append('token')))
+        mgr = new(it, TM, 'TransferManager', _management_flags=pending0, _management_queue=q)
+        from pyvc import aio as A
+        it.hooks[f'{TM}:TransferManager.manage_shares_changed'] = lambda it2, f, a, k: A.SimpleAwaitable(it2.aio, 'manage_shares_changed', lambda it3: log.append('shares-done'), on_start=None) \
+            if False else _awaitable(it2, 'manage_shares_changed', log)
+        it.hooks[f'{TM}:TransferManager.manage_user_tracking'] = lambda it2, f, a, k: _awaitable(it2, 'manage_user_tracking', log)
+        it.hooks[f'{TM}:TransferManager.manage_transfers'] = lambda it2, f, a, k: log.append('manage_transfers')
+        it.natives['time.monotonic'] = Native('time.monotonic', lambda it2, a, k: 1.0)
+        injected = []
+
+        def on_yield(it2, label):
+            if label == inject_at and not injected:
+                injected.append(len(log))
+                log.append('CHANGE')
+                it2.call(it2.getattr(mgr, 'request_management_cycle'), [shares], {})
+        it.aio.on_yield = on_yield
+        run(it, it.getattr(mgr, '_management_job'))
+        after = unbox_flag(mgr.attrs['_management_flags'])
+        if pending0 is shares:
+            ctx.prove('C08.cycle.job-processes-shares-change', 'shares-start' in log, 'a pending SHARES_CHANGE must run manage_shares_changed')
+        if inject_at == 'never':
+            ctx.prove('C08.cycle.job-consumes-flags', after == 0, 'the processed flags must be cleared')
+            return
+        if not injected:
+            if not (inject_at == 'manage_shares_changed' and pending0 is transfer):
+                ctx.fail('C08.cycle.no-lost-change', f'the job never suspended on {inject_at}')
+            return
+        handled_here = 'shares-start' in log[log.index('CHANGE'):]
+        ctx.prove(f'C08.cycle.no-lost-change[{inject_at}]', (handled_here or bool(after & shares.value)) and 'token' in log,
+                  f'a block / friend / share change that arrives while the job is suspended on {inject_at} is lost: the uploads are not re-evaluated')
+    ex.run(job, 'management-job')
+
+
+def _awaitable(it, name, log):
+    from pyvc import aio as A
+
+    def body(it3):
+        log.append(name.replace('manage_shares_changed', 'shares') + '-done' if name == 'manage_shares_changed' else name + '-done')
+    log_start = 'shares-start' if name == 'manage_shares_changed' else name + '-start'
+
+    class Started(A.SimpleAwaitable):
+        pass
+    log.append(log_start)
+    return A.SimpleAwaitable(it.aio, name, body)
+
+
+def cls_builtin(it, name):
+    from pyvc.values import BUILTIN_CLASSES
+    return BUILTIN_CLASSES[name]
+
+
 PARTS = {'locked': prove_locked, 'query': prove_query, 'replies': prove_replies, 'search': prove_search_gate, 'uploads': prove_upload_gate,
-         'evaluate': prove_evaluate}
+         'evaluate': prove_evaluate, 'changes': prove_changes}
 
 
 def items(src_root, tier):
@@ -687,5 +816,6 @@ def run_item(src_root, item, tier):
                           f'{PEER}:PeerManager._on_peer_shares_request', f'{PEER}:PeerManager._on_peer_directory_contents_req',
                           f'{SM}:SearchManager._query_shares_and_reply', f'{TM}:TransferManager._on_peer_transfer_queue',
                           f'{TM}:TransferManager._on_peer_transfer_request', f'{TM}:TransferManager._add_upload',
-                          f'{TM}:TransferManager._evaluate_aborted_state', f'{TM}:TransferManager.manage_shares_changed'])
+                          f'{TM}:TransferManager._evaluate_aborted_state', f'{TM}:TransferManager.manage_shares_changed',
+                          f'{TM}:TransferManager._management_job', f'{TM}:TransferManager.request_management_cycle', f'{MGR}:SharesManager.update_shared_directory'])
     return res
